@@ -6,6 +6,7 @@ import re
 import shutil
 import subprocess
 import sys
+import threading
 import time
 
 VERIF = os.path.dirname(os.path.dirname(os.path.abspath(__file__)))
@@ -59,6 +60,8 @@ class Ctx:
         self.extra = {}
         self.exhaustive = None
         self._vh = {}
+        self._lock = threading.Lock()
+        self._ntlc = 0
 
     # ---------------------------------------------------------------- scratch
     def path(self, *p):
@@ -136,7 +139,10 @@ class Ctx:
         """Run TLC on spec/<module>.tla with config <cfg> (default <module>.cfg)."""
         cfg = cfg or (module + ".cfg")
         workers = workers or min(CORES, 16)
-        meta = self.path("meta-%d" % len(self.tlc_runs))
+        with self._lock:
+            self._ntlc += 1
+            idx = self._ntlc
+        meta = self.path("meta-%d" % idx)
         cmd = ["tlc", "-workers", str(workers), "-metadir", meta, "-config", cfg]
         if simulate:
             cmd += ["-simulate", simulate]
@@ -157,7 +163,7 @@ class Ctx:
             e.update({k: str(v) for k, v in env.items()})
         t0 = time.time()
         r = TLCResult()
-        raw = self.path("tlc-%d.out" % len(self.tlc_runs))
+        raw = self.path("tlc-%d.out" % idx)
         try:
             with open(raw, "w") as fo:
                 p = subprocess.run(["timeout", str(int(timeout))] + cmd, cwd=self.specdir, env=e, stdout=fo,
@@ -166,7 +172,7 @@ class Ctx:
             raise Infra("cannot run tlc: %s" % ex)
         r.wall = time.time() - t0
         # stream the output: JSON cases printed by the spec go to a file (deduplicated), the rest is kept as text
-        r.cases_file = self.path("tlc-%d.cases.ndjson" % len(self.tlc_runs))
+        r.cases_file = self.path("tlc-%d.cases.ndjson" % idx)
         r.ncases = 0
         keep, seen = [], set()
         with open(raw, errors="replace") as fi, open(r.cases_file, "w") as fc:
@@ -215,10 +221,11 @@ class Ctx:
             r.ok = True
         else:
             r.error = out[-6000:]
-        if count:
-            self.states += r.distinct
-            self.transitions += r.generated
-        self.tlc_runs.append({"module": module, "cfg": cfg, "generated": r.generated, "distinct": r.distinct,
+        with self._lock:
+            if count:
+                self.states += r.distinct
+                self.transitions += r.generated
+            self.tlc_runs.append({"module": module, "cfg": cfg, "generated": r.generated, "distinct": r.distinct,
                               "ok": r.ok, "violated": r.violated, "wall_s": round(r.wall, 2),
                               "mode": "simulate" if simulate else "bfs"})
         if r.error and not r.violated:
